@@ -36,7 +36,7 @@ func main() {
 	vkit.Main("C18", "exploration", func(r *vkit.Report) {
 		r.SetRule("case = one Watchable history (sequential op list, or concurrent: 0-3 setters with unique values, 1-3 observers running the documented loop, 0-2 pollers, " +
 			"pause points held for a seeded subset of arrivals), one Future scenario (waiters before / during / after Fill, Wait and WaitContext with live, cancelled and expiring contexts), " +
-			"one Lazy barrier round (result type int64, string, *T, struct{}, error, any or a method interface; result distinct per call of f, the zero value, nil, non-nil, a typed nil pointer inside the interface, or f panics), or one xsync.Map operation list applied to xsync.Map[int,V] and sync.Map (V in int, string, *T, error, any). " +
+			"one Lazy barrier round (result type int64, string, *T, struct{}, error, any or a method interface; result distinct per call of f, the zero value, nil, non-nil, a typed nil pointer inside the interface, or f panics), one dependent-Lazy scenario (a Lazy whose function first-calls another with 0..40 others created in between in both creation orders; chains of 2..48; two unrelated Lazies first-called concurrently, one function waiting for the other's delivery), or one xsync.Map operation list applied to xsync.Map[int,V] and sync.Map (V in int, string, *T, error, any). " +
 			"Evaluation = one oracle comparison (one op against the sequential model, one history against the register model, one channel-rule sweep, one waiter result, one map op outcome or state comparison). " +
 			"non-trivial = Watchable history with >= 2 Sets in which a Value overlapped a Set in logical time; Future scenario with waiters before and after Fill; Lazy round; " +
 			"map op list that touched an absent and a present key, and each (V, method, key state, arguments) cell of the single-operation scope. distinct = by interleaving signature (return-tick ordered (client, op, value) sequence) for concurrent histories, " +
@@ -57,6 +57,7 @@ func main() {
 		timed("watchable-conc", watchableConc)
 		timed("future", futures)
 		timed("lazy", lazies)
+		timed("lazy-nested", lazyNested)
 		timed("map-script", mapScript)
 		timed("map-random", mapRandom)
 		timed("map-smoke", mapSmoke)
@@ -796,7 +797,7 @@ func watchableConcCase(c *vkit.Case) bool {
 		}
 		r.Distinct("w:" + sig.String())
 	}
-	if r.WantSample() && (c.Index == 3 || c.Index == 100) && len(ops) >= 6 {
+	if r.WantSample() && c.Index == 3 && len(ops) >= 6 {
 		r.Sample(map[string]any{"kind": "watchable history", "params": params, "final_value": vf, "ops": ops})
 	}
 	return true
